@@ -30,7 +30,8 @@ MANIFEST = {
             "  Second session: layouts now include 0-2 sub-agent nodes and a service node (./services), and 'reserved node used' is decided from the agent/service node lists alone."
             "  Third session: application-level histories ask for amounts which use a node's storage / memory up exactly, share cores (core_occupation < 1) and debit what the rank asked for."
             '  Scheduler histories include tasks whose application-supplied slots are invalid (unknown node / core, at any rank position): they must be failed and never placed (invalid-app-slots-granted), the books stay as they were (C03 decides the latter).'
-            "  The threaded NodeList workload (shared with C02) checks after every grant that no core / GPU of the granted slot is held more than once and no node's lfs / mem went negative.",
+            "  The threaded NodeList workload (shared with C02) checks after every grant that no core / GPU of the granted slot is held more than once and no node's lfs / mem went negative."
+            '  Fourth session: a fifth of the multi-node scheduler layouts have one backup node and one inaccessible node (the real _filter_nodes leaves it out): node indexes with a gap; a quarter of the application-level NodeList histories use gapped node indexes too.',
     'note': 'components run as threads over the in-memory transport; the fork '
             'is emulated by two objects sharing only the two queues; '
             'Continuous scheduler only (ContinuousJsrun uses another slot '
@@ -86,10 +87,18 @@ def nodelist_history(rng, res):
             return rp.NumaNode(d, dmap)
         return rp.Node(d)
 
-    nl = rp.NodeList(nodes=[mknode(i) for i in range(nn)])
+    # node indexes as a pilot reports them: consecutive, or with a gap (a
+    # backup node took the place of an inaccessible node)
+    idxs = list(range(nn))
+    hh   = cpn * 7 + gpn * 3 + nn + (lfs or 0) + len(blocked)
+    if nn > 1 and hh % 4 == 0:
+        gap  = 1 + hh % (nn - 1) if nn > 2 else 1
+        idxs = [i if i < gap else i + 1 + hh % 2 for i in range(nn)]
+        res.count('nodelist_histories_with_index_gap')
+    nl = rp.NodeList(nodes=[mknode(i) for i in idxs])
     nl.verify()
     case = {'cpn': cpn, 'gpn': gpn, 'nodes': nn, 'lfs': lfs, 'mem': mem,
-            'blocked': blocked, 'numa': numa, 'ops': []}
+            'blocked': blocked, 'numa': numa, 'ops': [], 'node_indexes': idxs}
     if numa:
         res.count('nodelist_numa_histories')
 
@@ -101,7 +110,12 @@ def nodelist_history(rng, res):
             key = rng.choice(sorted(live))
             slots = live.pop(key)
             case['ops'].append(['release', key])
-            nl.release_slots(slots)
+            try:
+                nl.release_slots(slots)
+            except Exception as e:
+                res.violation('nodelist-release-raised', 'release_slots '
+                              'raised %r (node indexes %s)' % (e, idxs), case)
+                return case
             for kk in list(cores):
                 cores[kk] = [e for e in cores[kk] if e[0] != key]
             for kk in list(gpus):
